@@ -44,8 +44,20 @@ Histories(d, di) ==
   IN {Rep(Op("Scan", 0), k) \o stop \o t : k \in ks, stop \in {<< >>, <<Op("Close", 0)>>, <<Op("Cancel", 0)>>}, t \in tl}
      \cup {<<Op("CancelAt", j)>> \o Rep(Op("Scan", 0), k) \o t : j \in arms, k \in ks, t \in tl}
 ScanCase(d, ops) == [toks |-> [i \in 1 .. Len(d) |-> d[i][1]], pieces |-> [i \in 1 .. Len(d) |-> d[i][2]], ops |-> ops, idfield |-> "ID"]
+\* Long runs of tokens that yield no object (unknown elements, comments), between two objects and before the end of the
+\* input, with the cancellation arriving from the reader while a Scan is at the start / in the middle / at the end of the run
+\* (and, for comparison, Close / Cancel between calls in front of the run): a Scan in flight must not run on through the run.
+RunLen == IF Big THEN 60 ELSE 30
+SkipRun == [i \in 1 .. RunLen |-> IF i % 3 = 0 THEN Skip("<!-- c" \o ToString(i) \o " -->") ELSE IF i % 3 = 1 THEN Open(UnknownElem) ELSE Close(UnknownElem)]
+RunDocs == << <<Open(Root), ObjItem("Node", 1)>> \o SkipRun \o <<ObjItem("Node", 2), Close(Root)>>,
+              <<Open(Root), ObjItem("Way", 1)>> \o SkipRun \o <<Close(Root)>> >>
+RunTails == {<< >>, <<Op("Err", 0)>>, <<Op("Scan", 0), Op("Err", 0)>>, <<Op("Close", 0), Op("Err", 0), Op("Scan", 0)>>}
+RunHistories ==
+  {<<Op("CancelAt", j)>> \o Rep(Op("Scan", 0), k) \o t : j \in {3, 4, 3 + RunLen \div 2, 2 + RunLen}, k \in 1 .. 3, t \in RunTails}
+  \cup {<<Op("Scan", 0)>> \o stop \o <<Op("Scan", 0)>> \o t : stop \in {<<Op("Close", 0)>>, <<Op("Cancel", 0)>>}, t \in RunTails}
 ScanCases == UNION {{ScanCase(ScanDocs[di], h) : h \in Histories(ScanDocs[di], di)} : di \in 1 .. Len(ScanDocs)}
+             \cup UNION {{ScanCase(RunDocs[di], h) : h \in RunHistories} : di \in 1 .. Len(RunDocs)}
 ASSUME ndJsonSerialize(IOEnv.OUT, SetToSeq(ScanCases))
-GInit == toks = << >> /\ pos = 0 /\ err = "none" /\ closed = FALSE /\ cancelled = FALSE /\ pc = "idle" /\ nxt = "nil" /\ hist = << >>
+GInit == InitWith(<< >>)
 GNext == UNCHANGED vars
 =============================================================================
